@@ -208,6 +208,8 @@ func runC03(w *World, r *Report) {
 	if ak, ik, ok := elementKinds(w); ok {
 		runWirelen(w, r, ak, ik)
 	}
+	r.Rule("ctorvalue", "a constructor whose payload is a computed function of its argument stores exactly the specified function on every path (vlan_vid: id | OFPVID_PRESENT)", 1)
+	ctorValueRule(w, r)
 	r.Rule("fresh", "a match-field header looked up by name is an object of its own", 1)
 	{
 		r2 := NewReport(r.Prop, r.Tier)
@@ -668,4 +670,70 @@ func replaceField(cell, old, nw string) string {
 		i++
 	}
 	return b.String()
+}
+
+// ctorValueSpec: constructors of match fields whose wire value is not the argument itself but a specified
+// function of it. OpenFlow 1.3.5 §7.2.3.7 / table 13: a match on a tagged packet with VLAN id x carries
+// x | OFPVID_PRESENT (0x1000) — also for x = 0 (a priority-tagged frame); the bare value 0 (OFPVID_NONE) means
+// "no tag at all", a different match. The constructor documents itself as the vlan-id match.
+var ctorValueSpec = []struct {
+	Ctor, Field, Arg string
+	Or               int64
+	Why              string
+}{
+	{"openflow13.NewVlanIdField", "VlanId", "vlanId", 0x1000, "OFPVID_PRESENT is set for every VLAN id, 0 included (OFPVID_NONE would match untagged packets instead)"},
+}
+
+func ctorValueRule(w *World, r *Report) {
+	for _, row := range ctorValueSpec {
+		fi := w.Funcs[row.Ctor]
+		if fi == nil {
+			r.Fail(VViolation, "ctorvalue", row.Ctor, row.Field, "-", "the constructor no longer exists (anchor of the rule cannot be resolved)")
+			continue
+		}
+		pos := w.Pos(fi.Decl.Pos())
+		// the constructor's summary gives the payload field as a term over the arguments, joined over all paths:
+		// it must be the one closed form arg | C (a case split on the argument shows as ite/oneof and is refused)
+		cs := w.CtorSummary(fi)
+		v, ok := cs.Fields["$.Value."+row.Field]
+		if !ok || len(goodRets(cs.FS.Rets)) == 0 {
+			r.Fail(VUndecided, "ctorvalue", row.Ctor, row.Field, pos, "the constructor's summary has no value for the payload field "+row.Field)
+			continue
+		}
+		got := v.valString()
+		want1 := fmt.Sprintf("opq((val(arg:%s))|(%d))", row.Arg, row.Or)
+		want2 := fmt.Sprintf("opq((%d)|(val(arg:%s)))", row.Or, row.Arg)
+		nOK := 0
+		for _, rt := range goodRets(cs.FS.Rets) {
+			_ = rt
+			nOK++
+		}
+		if got == want1 || got == want2 {
+			r.OK("ctorvalue", row.Ctor, row.Field, pos, fmt.Sprintf("%s = %s | %#x on every path (%d successful returns)", row.Field, row.Arg, row.Or, nOK), true)
+		} else {
+			r.Fail(VViolation, "ctorvalue", row.Ctor, row.Field, pos, fmt.Sprintf("the payload field %s is %s, not %s | %#x for every argument — %s", row.Field, got, row.Arg, row.Or, row.Why))
+		}
+	}
+}
+
+func init() {
+	extraDumps["ctor"] = func(w *World, args []string) {
+		for _, a := range args {
+			fi := w.Funcs[a]
+			if fi == nil {
+				fmt.Println("no function", a)
+				continue
+			}
+			cs := w.CtorSummary(fi)
+			var keys []string
+			for k := range cs.Fields {
+				keys = append(keys, k)
+			}
+			sort.Strings(keys)
+			for _, k := range keys {
+				fmt.Printf("%s %s = %s\n", a, k, cs.Fields[k].valString())
+			}
+			fmt.Printf("%s guard=%q rets=%d\n", a, cs.Guard, len(cs.FS.Rets))
+		}
+	}
 }
